@@ -1,7 +1,9 @@
 #!/bin/bash
-# dev helper: krun.sh <pkg> <harness-filter> [timeout_s] [extra cargo-kani args...]
-pkg=$1; h=$2; to=${3:-300}; shift 3 || shift $#
+# dev helper: krun.sh <pkg> <timeout_s> <harness-filter>... [-- extra cargo-kani args]
+pkg=$1; to=$2; shift 2
+hs=(); while [ $# -gt 0 ] && [ "$1" != "--" ]; do hs+=(--harness "$1"); shift; done; [ "$1" == "--" ] && shift
 feat=""
 case $pkg in iroh-relay) feat="--features server";; iroh-base) feat="--features key";; esac
-cd /repo && ( ulimit -v 25000000; CARGO_NET_OFFLINE=true timeout $to cargo kani -p $pkg $feat -Z stubbing -Z unstable-options --harness "$h" --target-dir /verif/.build/$pkg "$@" 2>&1 )
-echo "krun exit=$?"
+par=(); [ ${#hs[@]} -gt 2 ] && par=(-j 6 --output-format terse)
+cd /repo && ( ulimit -v 25000000; CARGO_NET_OFFLINE=true timeout $((to+600)) cargo kani -p $pkg $feat -Z stubbing -Z unstable-options "${hs[@]}" --harness-timeout ${to}s --target-dir /verif/.build/$pkg "${par[@]}" "$@" 2>&1 ) | grep -v "^warning\|^$\|Unwinding loop\|Not unwinding\|^\s*- Status: SUCCESS\|^Check [0-9]*:\|Description:\|Location:\|linker stdout"
+echo "krun exit=${PIPESTATUS[0]}"
